@@ -311,6 +311,44 @@ def run(ctx):
                 ctx.violation('printed rules are read differently after a preamble-only file was parsed in the same process', {'text': texts[i], 'alone': go2[i], 'after_file': o})
     ctx.cov['search']['parse_history'] = {'runs': len(hidx), 'differing': nh}
 
+    # the formatter pipeline (parse, merge, sort, format, print) run on paragraphs with near-duplicate rules between two
+    # readings of the same printed rules, all in one process: both readings must give what a fresh process gives
+    hk = ['file', 'file', 'file', 'signal', 'ptrace', 'dbus', 'unix', 'mqueue', 'mount', 'capability', 'network']
+    hrules, hspan = [], []
+    for _ in range(n // 6):
+        start = len(hrules)
+        for _ in range(rng.randint(1, 3)):
+            x = g.rule(rng.choice(hk))
+            if R9.known_class(x):
+                continue
+            hrules.append(x)
+            for _ in range(rng.randint(1, 3)):
+                z = g.rule(x['kind'])
+                y = dict(x, f=list(x['f']), comment='')
+                for j, v in enumerate(y['f']):
+                    if isinstance(v, list) and x['kind'] != 'dbus':
+                        y['f'][j] = z['f'][j]
+                if not R9.known_class(y):
+                    hrules.append(y)
+        hspan.append((start, len(hrules)))
+    hlines = ctx.run_go('render1', [R.enc(x) + '\t' for x in hrules])
+    htexts = ['\n'.join(unesc(o[3:]) for o in hlines[a:b] if o.startswith('ok\t')) + '\n\n' for a, b in hspan if b > a]
+    pidx = [i for i, t in enumerate(texts) if t and not R9.known_class(rules[i])][:n // 3]
+    hops = ['parse\t' + pops[i] for i in pidx] + ['fmt\t' + esc(t) for t in htexts] + ['parse\t' + pops[i] for i in pidx]
+    hres = ctx.run_go('aahist', hops)
+    ctx.cov['evaluations'] += len(hops)
+    nh2 = 0
+    for k, i in enumerate(pidx):
+        for which, o in (('before', hres[k]), ('after', hres[len(pidx) + len(htexts) + k])):
+            if o != go2[i]:
+                nh2 += 1
+                if nh2 <= 3:
+                    ctx.violation('a printed rule is read differently %s the formatter pipeline (parse, merge, sort, format) ran on other paragraphs '
+                                  'in the same process: it no longer comes back from its own text' % which,
+                                  {'text': texts[i], 'alone': go2[i], 'in_history': o, 'history': 'aahist: %d parse ops, %d fmt ops, the parse ops again' % (len(pidx), len(htexts)),
+                                   'sample_fmt_paragraph': htexts[0] if htexts else ''})
+    ctx.cov['search']['formatter_history'] = {'parse_ops': 2 * len(pidx), 'fmt_paragraphs': len(htexts), 'differing': nh2}
+
     # ---- known findings: witnesses on the real code ---------------------------------------------------------------------------------
     wk = list(WITNESSES)
     wout = ctx.run_go('render1', [R.enc(WITNESSES[k]) + '\t' for k in wk])
